@@ -165,6 +165,20 @@ def run(ctx: Ctx) -> None:
     mark("tree_replay")
     ctx.sample({"source": "tlc-exhaustive", "ops": [s["op"] for s in behs[len(behs) // 2]["steps"]]})
 
+    # ... and a deeper one over directory objects only (Dir.copy_to / StagingDir need four operations:
+    # two objects, a member, the copy)
+    dcls = ctx.pick(["Dir"], ["Dir", "ContentDir", "IDir"])
+    gcfg = fv.cfg_text("GSpecOps", **U_TWO_DIRS, bytes_=[2], mtimes=[1], classes=dcls, max_objs=2,
+                       max_ops=4, **flags, invariants=["Emit"], view=False)
+    g = run_tlc("seq/FileValues_Gen.tla", gcfg, ctx.scratch, workers=4, timeout=1500, heap="8g")
+    ctx.require(g.ok, f"FileValues_Gen exhaustive (directories) failed: {g.error} {g.violated}")
+    ctx.add_tlc(g)
+    dbehs = sorted(g.recs("BEH"), key=lambda b: fv.json.dumps(b, sort_keys=True))
+    ctx.require(len(dbehs) > 300, f"too few directory behaviours from TLC: {len(dbehs)}")
+    mark("tree4_tlc")
+    replay_all(ctx, rep, dbehs, U_TWO_DIRS, "tree4dirs", stats)
+    mark("tree4_replay")
+
     # ---- 4. spec -> code: long simulated behaviours ---------------------------------------------
     nsim = ctx.pick(120, 3000)
     depth = ctx.pick(6, 8)
